@@ -11,7 +11,7 @@ META = dict(
     functions=["DatasetWrapper.copy/__deepcopy__/__copy__/isel", "WaveSpectrum.__add__/__sub__/__neg__/multiply/"
                "__getitem__/bandpass/mean/sum/flatten/where/drop_invalid/interpolate/interpolate_frequency/fillna",
                "FrequencyDirectionSpectrum.as_frequency_spectrum", "FrequencySpectrum.as_frequency_direction_spectrum "
-               "(not run: estimator)", "WaveSpectrum.std/where/sel/is_valid/is_invalid, FrequencySpectrum.cdf/down_sample/"
+               "(with estimate_directional_distribution; the estimator itself is an uninterpreted function)", "WaveSpectrum.std/where/sel/is_valid/is_invalid, FrequencySpectrum.cdf/down_sample/"
                "extrapolate_tail/bulk_variables", "operations.concatenate_spectra", "create_1d_spectrum/create_2d_spectrum"],
     bounds=dict(quick="1D spectra (time=2, nf=3) and 2D spectra (time=2, nf=2, nd=3) filled with pairwise distinct "
                       "symbols (one structural NaN); every public operation applied once, plus sequences of 2..3 "
@@ -113,6 +113,10 @@ def _ops(ctx, kind):
         ops["direction_step"] = lambda s, o: (s.direction_step, s.e, s.a1)
     else:
         ops["mean_direction"] = lambda s, o: (s.mean_direction(), s.mean_directional_spread())
+        # 1D -> 2D conversion through the real glue (estimate_directional_distribution); the moments are unconstrained
+        # symbols, so they may lie outside the unit disc
+        ops["as_2d_mem2_approximate"] = lambda s, o: s.as_frequency_direction_spectrum(
+            4, method="mem2", solution_method="approximate")
         ops["cdf"] = lambda s, o: s.cdf()
         ops["down_sample"] = lambda s, o: s.down_sample(ctx.const(np.array([0.125, 0.25])))
         ops["extrapolate_tail"] = lambda s, o: s.extrapolate_tail(1.0, power=-4)
@@ -120,8 +124,19 @@ def _ops(ctx, kind):
     return ops
 
 
+EST_MODULES = ["ocean_science_utilities.wavespectra.estimators.mem2", "ocean_science_utilities.wavespectra.estimators.mem",
+               "ocean_science_utilities.wavespectra.estimators.estimate",
+               "ocean_science_utilities.wavespectra.estimators.utils"]
+
+
 def case_op(ctx, kind, op, layout="time"):
-    C.shim_modules(ctx)
+    C.shim_modules(ctx, extra=EST_MODULES if op.startswith("as_2d") else ())
+    if op.startswith("as_2d") and ctx.mode == "sym":
+        # the estimator itself is an uninterpreted function of the moments (C05 / C06 are about its values); the glue
+        # around it (reshaping, degrees Jacobian, multiplication by e) is the real code
+        import ocean_science_utilities.wavespectra.estimators.estimate as EST
+        from props.c05 import _stub_estimator
+        ctx.patch(EST, "mem2", _stub_estimator(4))
     s = _build(ctx, kind, "s", layout)
     o = _build(ctx, kind, "o", layout)
     snap_s, snap_o = _snapshot(s), _snapshot(o)
@@ -133,7 +148,7 @@ def case_op(ctx, kind, op, layout="time"):
     if hasattr(res, "dataset"):
         ctx.check(res is not s and res is not o and res.dataset is not s.dataset and res.dataset is not o.dataset,
                   "D-NEW", info=dict(op=op, what="returns a new object"))
-        ctx.check(type(res) is type(s) or op == "as_1d", "D-NEW.type", info=dict(op=op, got=type(res).__name__))
+        ctx.check(type(res) is type(s) or op.startswith("as_"), "D-NEW.type", info=dict(op=op, got=type(res).__name__))
         if op in ("copy_deep", "deepcopy", "add", "sub", "neg", "multiply", "multiply_dims"):
             # results built on deep copies share no buffers with the operands
             for name in res.dataset.variables:
